@@ -57,6 +57,11 @@ type ChanPlan struct {
 	// have consumed anything.
 	RecvCtx   [2]int `json:"recv_ctx,omitempty"`
 	RecvCtxUs [2]int `json:"recv_ctx_us,omitempty"`
+	// SendCtx: likewise for the senders of a side ([client side, server side]): every Send (not the
+	// opening message, not the closing one) gets a deadline; a Send that returns Cancelled / Timeout for
+	// that reason has sent nothing and is repeated with the same message.
+	SendCtx   [2]int `json:"send_ctx,omitempty"`
+	SendCtxUs [2]int `json:"send_ctx_us,omitempty"`
 }
 
 // sideEnd returns the ending action of one side (-1: none) and how many messages it waits for.
@@ -156,6 +161,7 @@ type flowRun struct {
 	tornDown         bool
 	stranded         int
 	recvCtxExpired   int // Receive calls that ended by the receiver's own deadline and were repeated
+	sendCtxExpired   int // likewise Send calls
 }
 
 func newFlowRun(p *FlowPlan) *flowRun {
@@ -324,7 +330,7 @@ func (r *flowRun) runChannelClient(cs *chanState, open opener) {
 		}
 		s := s
 		g.goTask(fmt.Sprintf("ch%d-csend%d", cs.idx, s), func() {
-			if s == 1 && scancel != nil {
+			if s == 1 && (scancel != nil || cp.SendCtx[0] != 0) {
 				// the opening message (sender 0) is never abandoned half-way: a cancelled open would
 				// leave a channel the peer has never heard of
 				hWaitCond("flow.wait-open", func() bool { return cs.d[0].sendDone[0] })
@@ -337,7 +343,12 @@ func (r *flowRun) runChannelClient(cs *chanState, open opener) {
 				if k == 0 {
 					c = r.bg // the opening message is never abandoned: the handler must start
 				}
-				if !r.sendOne(cs, 0, k, func(b []byte) status.Status { return ch.Send(c, b) }, "Send") {
+				if !r.sendOne(cs, 0, k, func(b []byte) status.Status {
+					if k == 0 {
+						return ch.Send(c, b)
+					}
+					return r.sendDeadline(cs, 0, c, func(ctx async.Context) status.Status { return ch.Send(ctx, b) })
+				}, "Send") {
 					return
 				}
 			}
@@ -392,6 +403,40 @@ func (r *flowRun) sendOne(cs *chanState, dir, k int, send func([]byte) status.St
 	ds.sendDone[k] = true
 	simrt.Logf("ch%d d%d %s #%d -> %s", cs.idx, dir, what, k, stName(st))
 	return st.OK()
+}
+
+// sendDeadline runs one Send under the side's own per-call deadline (ChanPlan.SendCtx), repeating it
+// while it ends by that deadline; without SendCtx it is a plain call with the parent context.
+func (r *flowRun) sendDeadline(cs *chanState, dir int, parent async.Context, send func(ctx async.Context) status.Status) status.Status {
+	kind, us := cs.plan.SendCtx[dir], cs.plan.SendCtxUs[dir] // the sender of direction 0 is the client side
+	if kind == 0 {
+		return send(parent)
+	}
+	for {
+		var own async.Context
+		d := time.Duration(us) * time.Microsecond
+		if kind == 1 {
+			cc := async.NextContext(parent)
+			hGo(fmt.Sprintf("ch%d-d%d-scancel", cs.idx, dir), func() {
+				hSleep(d)
+				cc.Cancel()
+			})
+			own = cc
+		} else {
+			own = async.NextTimeoutContext(parent, d)
+		}
+		st := send(own)
+		expired := own.Done()
+		own.Free()
+		if !st.OK() && expired && !parent.Done() && (st.Code == status.CodeCancelled || st.Code == status.CodeTimeout) {
+			r.sendCtxExpired++
+			if us < 200_000 {
+				us = us*2 + 1
+			}
+			continue
+		}
+		return st
+	}
 }
 
 // recvLoop receives on ch until a non-OK status or until limit messages were
@@ -548,7 +593,9 @@ func (r *flowRun) handler(ctx mpx.Context, ch mpx.Channel) (ret status.Status) {
 				if k >= nData {
 					break
 				}
-				if !r.sendOne(cs, 1, k, func(b []byte) status.Status { return ch.Send(sctx, b) }, "Send") {
+				if !r.sendOne(cs, 1, k, func(b []byte) status.Status {
+					return r.sendDeadline(cs, 1, sctx, func(ctx async.Context) status.Status { return ch.Send(ctx, b) })
+				}, "Send") {
 					return
 				}
 			}
